@@ -331,6 +331,7 @@ inductive Op where
   | after (order : List Phase) (big : Nat)
   /-- the asynchronous socket is destroyed -/
   | destroy
+  deriving Repr
 
 def callObs : Call → Option Obs
   | .wait _ t ready => some (.poll t ready)
@@ -372,6 +373,16 @@ def stepObs (a : Async) (o : Out Unit) (p : PSt Script) : List Obs :=
       | f :: _ => if p.a.futures.length = a.futures.length + 1 then [Obs.fut a.futures.length (futOf f)] else []
       | [] => [])
 
+/-- the `recv` answers left after the peer's kill -/
+def killRecvs (recvs : List RecvAns) : Option (Nat × Nat) → List RecvAns
+  | none => recvs
+  | some (k, e) => recvs.take k ++ [.fail e]
+
+/-- the promises still queued when the socket is destroyed are reported broken -/
+def brokenObs (start : Nat) : Nat → List Obs
+  | 0 => []
+  | n + 1 => Obs.fut start .broken :: brokenObs (start + 1) n
+
 def sysStep (m : Sys) : Op → Sys × List Obs
   | .psend n =>
     let chunk := (m.ppay.drop m.psent).take (min n m.rsz)
@@ -403,16 +414,14 @@ def sysStep (m : Sys) : Op → Sys × List Obs
   | .pre xsent => ({ m with xsentPre := m.xsentPre <|> some xsent }, [.pre xsent])
   | .kill kind pread reset sends =>
     if m.killed.isSome then (m, []) else
-    let recvs := match reset with
-      | none => m.x.w.recvs
-      | some (k, e) => m.x.w.recvs.take k ++ [.fail e]
-    ({ m with x := { m.x with w := { m.x.w with dead := true, waits := [], sends := m.x.w.sends ++ sends, recvs := recvs } },
+    ({ m with x := { m.x with w := { m.x.w with dead := true, waits := [], sends := m.x.w.sends ++ sends,
+                                                recvs := killRecvs m.x.w.recvs reset } },
               killed := some (kind, pread), lossy := reset.isSome }, [.kill kind pread])
   | .after o b => ({ m with ord := m.ord <|> some (o, b) }, [.after o b])
   | .destroy =>
     if ¬ m.async ∨ m.destroyed then (m, []) else
     ({ m with destroyed := true },
-     [.destroy] ++ (List.range m.x.a.sendQ.length).map fun j => Obs.fut (m.x.a.futures.length + j) .broken)
+     [.destroy] ++ brokenObs m.x.a.futures.length m.x.a.sendQ.length)
 
 def modelOps (m : Sys) : List Op → Sys × List Obs
   | [] => (m, [])
@@ -430,5 +439,421 @@ def finalObs (m : Sys) : List Obs := [.got m.got, .state m.psent]
 def modelTrace (async : Bool) (rsz : Nat) (ppay : Bytes) (history : List Op) : List Obs :=
   let r := modelOps (Sys.init async rsz ppay) history
   [.setup async false, .payload ppay] ++ r.2 ++ finalObs r.1
+
+
+/-! ## the environment assumptions, as a decidable predicate on histories
+
+* **kernel**: `send` never answers 0 for a non-empty buffer (`saneSends`); `Send` is called with a non-empty buffer;
+* **K1** (kernel after the peer is gone): from the kill on `poll` reports X ready (no scripted `poll` answers any
+  more; a driver step finds X readable), `send` fails after the answers given with the kill, `recv` yields the
+  unread segments and then end of stream - or, only when the end is not orderly (reset, or close with data of X
+  unread), some of them and then an error; while the peer is alive `poll` reports neither HUP / ERR nor POLLIN
+  without data;
+* **the scenario is played to its end** (what the `after` line promises): after the kill the asynchronous driver
+  is stepped more often than there are unread segments (before the socket is destroyed); with `r` in the order
+  `Receive` is called more often than there are unread segments; with `s` (and >= 1 MB, not a half close, no `r`)
+  `Send` is called more often than the kernel still accepts. -/
+
+def firstAfter : List Op → Option (List Phase × Nat)
+  | [] => none
+  | .after o b :: _ => some (o, b)
+  | _ :: rest => firstAfter rest
+
+def saneSends (l : List SendAns) : Bool := l.all fun a => a != .accept 0
+
+/-- driver steps before the socket is destroyed -/
+def liveSteps : List Op → Nat
+  | [] => 0
+  | .step _ _ :: rest => liveSteps rest + 1
+  | .destroy :: _ => 0
+  | _ :: rest => liveSteps rest
+
+def recvOps : List Op → Nat
+  | [] => 0
+  | .recv _ _ :: rest => recvOps rest + 1
+  | _ :: rest => recvOps rest
+
+def sendOps : List Op → Nat
+  | [] => 0
+  | .send _ _ _ _ :: rest => sendOps rest + 1
+  | _ :: rest => sendOps rest
+
+def KillKind.real : KillKind → Bool
+  | .other _ => false
+  | _ => true
+
+def ordList (ord : Option (List Phase × Nat)) : List Phase := (ord.map (·.1)).getD []
+def ordBig (ord : Option (List Phase × Nat)) : Nat := (ord.map (·.2)).getD 0
+
+/-- must a big `Send` report the failure? -/
+def needSend (ord : Option (List Phase × Nat)) (kind : KillKind) : Bool :=
+  (ordList ord).contains .s && kind != .shutwr && decide (ordBig ord ≥ 1000000)
+
+def opOk (ord : Option (List Phase × Nat)) (m : Sys) (op : Op) (rest : List Op) : Bool :=
+  match op with
+  | .psend _ => true
+  | .send _ data waits sends =>
+    m.async || (data != [] && saneSends sends && (m.killed.isNone || (waits.isEmpty && sends.isEmpty)))
+  | .recv _ waits => m.async || m.killed.isNone || waits.isEmpty
+  | .enq _ => true
+  | .step rev sends =>
+    !m.async || m.destroyed ||
+      (saneSends sends &&
+        (if m.killed.isSome then rev.rd && sends.isEmpty
+         else !rev.hupErr && (!rev.rd || !m.x.w.recvs.isEmpty)))
+  | .pre _ => m.killed.isNone || m.xsentPre.isSome
+  | .kill kind pread reset sends =>
+    m.killed.isSome ||
+      (kind.real && saneSends sends && (reset.isNone || !orderly kind pread m.xsentPre) &&
+        (let n := (killRecvs m.x.w.recvs reset).length
+         if m.async then (ordList ord).isEmpty || (!m.destroyed && decide (liveSteps rest > n))
+         else (!(ordList ord).contains .r || decide (recvOps rest > n)) &&
+              (!needSend ord kind || (ordList ord).contains .r || decide (sendOps rest > (m.x.w.sends ++ sends).length))))
+  | .after _ _ => true
+  | .destroy => true
+
+def histOkFrom (ord : Option (List Phase × Nat)) (m : Sys) : List Op → Bool
+  | [] => true
+  | op :: rest => opOk ord m op rest && histOkFrom ord (sysStep m op).1 rest
+
+def histOk (async : Bool) (rsz : Nat) (ppay : Bytes) (history : List Op) : Bool :=
+  histOkFrom (firstAfter history) (Sys.init async rsz ppay) history
+
+
+/-! ## the proof: the predicate accepts every trace of the model
+
+### the calls of `Send` / `Receive` against the scripted kernel -/
+
+def pollOk (T spent t : Int) : Bool :=
+  if T < 0 then decide (t < 0) else if T = 0 then decide (t = 0) else decide (0 ≤ t) && decide (spent + t ≤ T)
+
+def nextSpent (T spent t : Int) (r : Bool) : Int :=
+  if T < 0 then spent else if T = 0 then spent else spent + (if r then 0 else t)
+
+@[simp] theorem nextSpent_ready (T spent t : Int) : nextSpent T spent t true = spent := by
+  unfold nextSpent; split
+  · rfl
+  · split <;> simp
+
+/-- a chronological call log satisfies the wait / MSG_NOSIGNAL clauses of a call with timeout `T` -/
+def okLog (T : Int) : Int → List Call → Bool
+  | _, [] => true
+  | sp, .wait _ t r :: rest => pollOk T sp t && okLog T (nextSpent T sp t r) rest
+  | sp, .send _ _ ns :: rest => ns && okLog T sp rest
+  | sp, .recv _ _ :: rest => okLog T sp rest
+
+def spendLog (T : Int) : Int → List Call → Int
+  | sp, [] => sp
+  | sp, .wait _ t r :: rest => spendLog T (nextSpent T sp t r) rest
+  | sp, _ :: rest => spendLog T sp rest
+
+theorem pollClause_ok (ep : EpSt) (T t : Int) (r : Bool) (h : pollOk T ep.spent t = true) :
+    pollClause ep T t r = .ok { ep with spent := nextSpent T ep.spent t r } := by
+  unfold pollOk at h
+  unfold pollClause nextSpent
+  by_cases h1 : T < 0
+  · simp only [h1, if_true, decide_eq_true_eq] at h
+    have : ¬ t ≥ 0 := by omega
+    simp [h1, this]
+  · by_cases h2 : T = 0
+    · subst h2
+      simp at h
+      simp [h]
+    · simp only [h1, h2, if_false, Bool.and_eq_true, decide_eq_true_eq] at h
+      have a1 : ¬ t < 0 := by omega
+      have a2 : ¬ ep.spent + t > T := by omega
+      simp [h1, h2, a1, a2]
+
+/-- the observer accepts the `os …` lines of a log that satisfies `okLog` -/
+theorem specRun_log (T : Int) : ∀ (l : List Call) (sp : SpecSt) (ep : EpSt) (tail : List Obs),
+    sp.ep = some ep → ep.callT = some T → okLog T ep.spent l = true →
+    specRun sp (l.filterMap callObs ++ tail)
+      = specRun { sp with ep := some { ep with spent := spendLog T ep.spent l } } tail := by
+  intro l
+  induction l with
+  | nil =>
+    intro sp ep tail h1 _ _
+    have : sp = { sp with ep := some { ep with spent := ep.spent } } := by cases sp; simp_all
+    simp only [List.filterMap_nil, List.nil_append, spendLog]
+    rw [← this]
+  | cons c l ih =>
+    intro sp ep tail h1 h2 h3
+    cases c with
+    | wait d t r =>
+      simp only [okLog, Bool.and_eq_true] at h3
+      have hp := pollClause_ok ep T t r h3.1
+      have hstep : specStep sp (.poll t r) = .ok { sp with ep := some { ep with spent := nextSpent T ep.spent t r } } := by
+        simp [specStep, h1, h2, hp, Except.map]
+      simp only [List.filterMap_cons, callObs, List.cons_append, specRun, hstep, spendLog]
+      exact ih _ { ep with spent := nextSpent T ep.spent t r } tail rfl h2 h3.2
+    | send bs a ns =>
+      simp only [okLog, Bool.and_eq_true] at h3
+      simp only [List.filterMap_cons, callObs, List.cons_append, specRun, specStep, h3.1, if_true, spendLog]
+      exact ih sp ep tail h1 h2 h3.2
+    | recv n a =>
+      simp only [okLog] at h3
+      simp only [List.filterMap_cons, callObs, spendLog]
+      exact ih sp ep tail h1 h2 h3
+
+
+theorem sendNoSignal_true : sendNoSignal = true := by decide
+
+theorem saneSends_drop (l : List SendAns) (k : Nat) (h : saneSends l = true) : saneSends (l.drop k) = true := by
+  simp only [saneSends, List.all_eq_true] at h ⊢
+  intro a ha
+  exact h a (List.mem_of_mem_drop ha)
+
+/-- `w'` is reached from `w` by the chronological calls `l`, none of which is a `recv` -/
+structure SendRun (w w' : Script) (l : List Call) : Prop where
+  calls : w'.calls = l.reverse ++ w.calls
+  recvs : w'.recvs = w.recvs
+  dead : w'.dead = w.dead
+  clock : w.clock ≤ w'.clock
+  waits : w.waits = [] → w'.waits = []
+  sends : ∃ k, w'.sends = w.sends.drop k
+
+theorem SendRun.refl (w : Script) : SendRun w w [] :=
+  ⟨by simp, rfl, rfl, Int.le_refl _, id, ⟨0, by simp⟩⟩
+
+theorem SendRun.trans {a b c : Script} {l1 l2 : List Call} (h1 : SendRun a b l1) (h2 : SendRun b c l2) :
+    SendRun a c (l1 ++ l2) := by
+  obtain ⟨k1, hk1⟩ := h1.sends
+  obtain ⟨k2, hk2⟩ := h2.sends
+  refine ⟨?_, ?_, ?_, ?_, ?_, ⟨k1 + k2, ?_⟩⟩
+  · rw [h2.calls, h1.calls]; simp
+  · rw [h2.recvs, h1.recvs]
+  · rw [h2.dead, h1.dead]
+  · exact Int.le_trans h1.clock h2.clock
+  · intro h; exact h2.waits (h1.waits h)
+  · rw [hk2, hk1, List.drop_drop]
+
+theorem SendRun.sendsLen {w w' : Script} {l : List Call} (h : SendRun w w' l) : w'.sends.length ≤ w.sends.length := by
+  obtain ⟨k, hk⟩ := h.sends
+  rw [hk, List.length_drop]; omega
+
+theorem SendRun.sane {w w' : Script} {l : List Call} (h : SendRun w w' l) (hs : saneSends w.sends = true) :
+    saneSends w'.sends = true := by
+  obtain ⟨k, hk⟩ := h.sends
+  rw [hk]; exact saneSends_drop _ _ hs
+
+/-- one `poll` of the scripted kernel; after the peer is gone (no scripted answers left) it reports ready -/
+theorem wait_run (w : Script) (d : Dir) (t : Int) :
+    SendRun w (Script.world.wait w d t).2 [.wait d t (Script.world.wait w d t).1] ∧
+    (w.dead = true → w.waits = [] → (Script.world.wait w d t).1 = true) := by
+  rcases hw : w.waits with _ | ⟨a, rest⟩
+  · by_cases hd : w.dead = true
+    · have e : Script.world.wait w d t = (true, { w with calls := .wait d t true :: w.calls }) := by
+        simp [Script.world, hw, hd]
+      rw [e]
+      exact ⟨⟨by simp, rfl, rfl, Int.le_refl _, id, ⟨0, by simp⟩⟩, fun _ _ => rfl⟩
+    · have e : Script.world.wait w d t = ((d == .wr), { w with
+          clock := w.clock + (if (d == .wr) = true then 0 else if t > 0 then t else 0), calls := .wait d t (d == .wr) :: w.calls }) := by
+        simp [Script.world, hw, hd]
+      rw [e]
+      refine ⟨⟨by simp, rfl, rfl, ?_, id, ⟨0, by simp⟩⟩, fun h => absurd h hd⟩
+      simp only
+      split
+      · omega
+      · split <;> omega
+  · have e : Script.world.wait w d t = (a.ready, { w with waits := rest, clock := w.clock + a.elapsed, calls := .wait d t a.ready :: w.calls }) := by
+      simp [Script.world, hw]
+    rw [e]
+    refine ⟨⟨by simp, rfl, rfl, ?_, (fun h => by simp_all), ⟨0, by simp⟩⟩, (fun _ h => by simp_all)⟩
+    simp only
+    omega
+
+/-- `SendNow` against the scripted kernel -/
+theorem sendNow_run (w : Script) (bs : Bytes) (hs : saneSends w.sends = true) :
+    (∃ a, SendRun w (sendNow Script.world w bs).w [.send bs a true]) ∧
+    (∀ e, (sendNow Script.world w bs).exn = some e → Exn.isLogic e = false) ∧
+    (w.dead = true → (sendNow Script.world w bs).exn = none → (sendNow Script.world w bs).w.sends.length < w.sends.length) := by
+  rcases hsn : w.sends with _ | ⟨a, rest⟩
+  · by_cases hd : w.dead = true
+    · have e : Script.world.send w bs = (.fail epipe, { w with calls := .send bs (.fail epipe) true :: w.calls }) := by
+        simp [Script.world, hsn, hd, sendNoSignal_true]
+      simp only [sendNow, e]
+      exact ⟨⟨.fail epipe, ⟨by simp, rfl, rfl, Int.le_refl _, id, ⟨0, by simp⟩⟩⟩, (by intro e h; cases h; rfl), (by intro _ h; cases h)⟩
+    · have e : Script.world.send w bs = (.accept bs.length, { w with calls := .send bs (.accept bs.length) true :: w.calls }) := by
+        simp [Script.world, hsn, hd, sendNoSignal_true]
+      simp only [sendNow, e]
+      refine ⟨?_, ?_, fun h => absurd h hd⟩
+      · split <;> exact ⟨.accept bs.length, ⟨by simp, rfl, rfl, Int.le_refl _, id, ⟨0, by simp⟩⟩⟩
+      · intro e h
+        split at h
+        · rename_i hc
+          have : bs = [] := List.eq_nil_of_length_eq_zero hc.1
+          exact absurd this hc.2
+        · cases h
+  · have ha : a ≠ .accept 0 := by
+      simp only [saneSends, hsn, List.all_cons, Bool.and_eq_true, bne_iff_ne] at hs
+      exact hs.1
+    have e : Script.world.send w bs = (a, { w with sends := rest, calls := .send bs a true :: w.calls }) := by
+      simp [Script.world, hsn, sendNoSignal_true]
+    simp only [sendNow, e]
+    cases a with
+    | fail e1 =>
+      exact ⟨⟨.fail e1, ⟨by simp, rfl, rfl, Int.le_refl _, id, ⟨1, by simp [hsn]⟩⟩⟩, (by intro e h; cases h; rfl), (by intro _ h; cases h)⟩
+    | accept k =>
+      have hk : k ≠ 0 := fun h => ha (by rw [h])
+      simp only [hk, false_and, if_false]
+      exact ⟨⟨.accept k, ⟨by simp, rfl, rfl, Int.le_refl _, id, ⟨1, by simp [hsn]⟩⟩⟩, (by intro e h; cases h), (by intro _ _; simp)⟩
+
+
+/-- what the proof needs to know about one `Send` against the scripted kernel -/
+structure SendFacts (T : Int) (w : Script) (bs : Bytes) (r : SendRes Script) : Prop where
+  run : ∃ l, SendRun w r.w l ∧ okLog T 0 l = true
+  nologic : ∀ e, r.exn = some e → Exn.isLogic e = false
+  live : w.dead = true → w.waits = [] → bs ≠ [] → r.exn = none → r.w.sends.length < w.sends.length
+
+theorem sendAll_facts (T : Int) (hT : T < 0) (w : Script) (bs : Bytes) (acc : Nat) (hs : saneSends w.sends = true) :
+    SendFacts T w bs (sendAll Script.world w bs acc) := by
+  fun_induction Net.sendAll Script.world w bs acc with
+  | case1 w bs acc r0 hx =>
+    obtain ⟨hw, _⟩ := wait_run w .wr (-1)
+    obtain ⟨⟨a, hn⟩, hl, _⟩ := sendNow_run (Script.world.wait w .wr (-1)).2 bs (hw.sane hs)
+    refine ⟨⟨_, hw.trans hn, by simp [okLog, pollOk, hT]⟩, hl, ?_⟩
+    intro _ _ _ hx'
+    simp only at hx'
+    rw [hx'] at hx; cases hx
+  | case2 w bs acc r0 hx hrest =>
+    obtain ⟨hw, _⟩ := wait_run w .wr (-1)
+    obtain ⟨⟨a, hn⟩, hl, hv⟩ := sendNow_run (Script.world.wait w .wr (-1)).2 bs (hw.sane hs)
+    refine ⟨⟨_, hw.trans hn, by simp [okLog, pollOk, hT]⟩, (by intro e h; cases h), ?_⟩
+    intro hd _ _ _
+    have hx' : r0.exn = none := by simpa using hx
+    have h1 : r0.w.sends.length < (Script.world.wait w .wr (-1)).2.sends.length := hv (by rw [hw.dead]; exact hd) hx'
+    have := hw.sendsLen
+    simp only
+    omega
+  | case3 w bs acc r0 hx hrest hpos ih =>
+    obtain ⟨hw, _⟩ := wait_run w .wr (-1)
+    obtain ⟨⟨a, hn⟩, hl, hv⟩ := sendNow_run (Script.world.wait w .wr (-1)).2 bs (hw.sane hs)
+    have hn' : SendRun (Script.world.wait w .wr (-1)).2 r0.w [.send bs a true] := hn
+    obtain ⟨⟨l, hr, hok⟩, il, _⟩ := ih (hn'.sane (hw.sane hs))
+    refine ⟨⟨_, (hw.trans hn').trans hr, ?_⟩, il, ?_⟩
+    · simp [okLog, pollOk, hT, nextSpent, hok]
+    · intro hd _ _ _
+      have hx' : r0.exn = none := by simpa using hx
+      have h1 : r0.w.sends.length < (Script.world.wait w .wr (-1)).2.sends.length := hv (by rw [hw.dead]; exact hd) hx'
+      have := hw.sendsLen
+      have := hr.sendsLen
+      omega
+  | case4 w bs acc r0 hx hrest hpos =>
+    exfalso
+    have hx' : r0.exn = none := by simpa using hx
+    have hne : bs ≠ [] := by intro h; apply hrest; simp [h]
+    exact hpos (sendNow_pos Script.world _ bs hne hx')
+
+
+theorem sendTry_facts (w : Script) (bs : Bytes) (hs : saneSends w.sends = true) :
+    SendFacts 0 w bs (sendTry Script.world w bs) := by
+  obtain ⟨hw, hready⟩ := wait_run w .wr 0
+  unfold sendTry
+  rcases hwt : Script.world.wait w .wr 0 with ⟨r, w1⟩
+  rw [hwt] at hw hready
+  cases r
+  · simp only
+    refine ⟨⟨_, hw, by simp [okLog, pollOk]⟩, (by intro e h; cases h), ?_⟩
+    intro hd hwe
+    have := hready hd hwe
+    cases this
+  · simp only
+    obtain ⟨⟨a, hn⟩, hl, hv⟩ := sendNow_run w1 bs (hw.sane hs)
+    refine ⟨⟨_, hw.trans hn, by simp [okLog, pollOk]⟩, hl, ?_⟩
+    intro hd _ _ hx
+    have := hv (by rw [hw.dead]; exact hd) hx
+    have := hw.sendsLen
+    simp only at *
+    omega
+
+theorem pollOk_rem (T deadline tick : Int) (hT : 0 < T) (h1 : deadline - T ≤ tick) :
+    pollOk T 0 (remainingMs deadline tick) = true := by
+  unfold pollOk remainingMs
+  have a1 : ¬ T < 0 := by omega
+  have a2 : ¬ T = 0 := by omega
+  simp only [a1, a2, if_false, Bool.and_eq_true, decide_eq_true_eq]
+  split <;> omega
+
+theorem sendSome_facts (T : Int) (hT : 0 < T) (w : Script) (bs : Bytes) (deadline tick : Int) (acc : Nat)
+    (hs : saneSends w.sends = true) (h1 : deadline - T ≤ tick) (h2 : deadline - T ≤ w.clock) :
+    SendFacts T w bs (sendSome Script.world w bs deadline tick acc).1 := by
+  fun_induction Net.sendSome Script.world w bs deadline tick acc with
+  | case1 w bs tick acc wt hf =>
+    obtain ⟨hw, hready⟩ := wait_run w .wr (remainingMs deadline tick)
+    have hf' : (Script.world.wait w .wr (remainingMs deadline tick)).1 = false := hf
+    refine ⟨⟨_, hw, ?_⟩, (by intro e h; cases h), ?_⟩
+    · simp [okLog, pollOk_rem T deadline tick hT h1]
+    · intro hd hwe
+      rw [hready hd hwe] at hf'; cases hf'
+  | case2 w bs tick acc wt hf tick' r hx =>
+    obtain ⟨hw, _⟩ := wait_run w .wr (remainingMs deadline tick)
+    have hf' : (Script.world.wait w .wr (remainingMs deadline tick)).1 = true := by simpa using hf
+    obtain ⟨⟨a, hn⟩, hl, _⟩ := sendNow_run (Script.world.wait w .wr (remainingMs deadline tick)).2 bs (hw.sane hs)
+    refine ⟨⟨_, hw.trans hn, ?_⟩, hl, ?_⟩
+    · simp [okLog, pollOk_rem T deadline tick hT h1, hf']
+    · intro _ _ _ hx'
+      simp only at hx'
+      rw [hx'] at hx; cases hx
+  | case3 w bs tick acc wt hf tick' r hx hrest =>
+    obtain ⟨hw, _⟩ := wait_run w .wr (remainingMs deadline tick)
+    have hf' : (Script.world.wait w .wr (remainingMs deadline tick)).1 = true := by simpa using hf
+    obtain ⟨⟨a, hn⟩, hl, hv⟩ := sendNow_run (Script.world.wait w .wr (remainingMs deadline tick)).2 bs (hw.sane hs)
+    refine ⟨⟨_, hw.trans hn, ?_⟩, (by intro e h; cases h), ?_⟩
+    · simp [okLog, pollOk_rem T deadline tick hT h1, hf']
+    · intro hd _ _ _
+      have hx' : r.exn = none := by simpa using hx
+      have h3 : r.w.sends.length < (Script.world.wait w .wr (remainingMs deadline tick)).2.sends.length :=
+        hv (by rw [hw.dead]; exact hd) hx'
+      have := hw.sendsLen
+      simp only
+      omega
+  | case4 w bs tick acc wt hf tick' r hx hrest hlt hpos ih =>
+    obtain ⟨hw, _⟩ := wait_run w .wr (remainingMs deadline tick)
+    have hf' : (Script.world.wait w .wr (remainingMs deadline tick)).1 = true := by simpa using hf
+    obtain ⟨⟨a, hn⟩, hl, hv⟩ := sendNow_run (Script.world.wait w .wr (remainingMs deadline tick)).2 bs (hw.sane hs)
+    have hn' : SendRun (Script.world.wait w .wr (remainingMs deadline tick)).2 r.w [.send bs a true] := hn
+    have hc1 : w.clock ≤ (Script.world.wait w .wr (remainingMs deadline tick)).2.clock := hw.clock
+    have hc2 : (Script.world.wait w .wr (remainingMs deadline tick)).2.clock ≤ r.w.clock := hn'.clock
+    have ht : tick' = (Script.world.wait w .wr (remainingMs deadline tick)).2.clock := rfl
+    obtain ⟨⟨l, hr, hok⟩, il, _⟩ := ih (hn'.sane (hw.sane hs)) (by omega) (by omega)
+    refine ⟨⟨_, (hw.trans hn').trans hr, ?_⟩, il, ?_⟩
+    · simp [okLog, pollOk_rem T deadline tick hT h1, hf', hok]
+    · intro hd _ _ _
+      have hx' : r.exn = none := by simpa using hx
+      have h3 : r.w.sends.length < (Script.world.wait w .wr (remainingMs deadline tick)).2.sends.length :=
+        hv (by rw [hw.dead]; exact hd) hx'
+      have := hw.sendsLen
+      have := hr.sendsLen
+      omega
+  | case5 w bs tick acc wt hf tick' r hx hrest hlt hpos =>
+    exfalso
+    have hx' : r.exn = none := by simpa using hx
+    have hne : bs ≠ [] := by intro h; apply hrest; simp [h]
+    exact hpos (sendNow_pos Script.world _ bs hne hx')
+  | case6 w bs tick acc wt hf tick' r hx hrest hlt =>
+    obtain ⟨hw, _⟩ := wait_run w .wr (remainingMs deadline tick)
+    have hf' : (Script.world.wait w .wr (remainingMs deadline tick)).1 = true := by simpa using hf
+    obtain ⟨⟨a, hn⟩, hl, hv⟩ := sendNow_run (Script.world.wait w .wr (remainingMs deadline tick)).2 bs (hw.sane hs)
+    refine ⟨⟨_, hw.trans hn, ?_⟩, (by intro e h; cases h), ?_⟩
+    · simp [okLog, pollOk_rem T deadline tick hT h1, hf']
+    · intro hd _ _ _
+      have hx' : r.exn = none := by simpa using hx
+      have h3 : r.w.sends.length < (Script.world.wait w .wr (remainingMs deadline tick)).2.sends.length :=
+        hv (by rw [hw.dead]; exact hd) hx'
+      have := hw.sendsLen
+      simp only
+      omega
+
+/-- `Send(data, T)` against the scripted kernel, every timeout mode -/
+theorem send_facts (T : Int) (w : Script) (bs : Bytes) (hs : saneSends w.sends = true) :
+    SendFacts T w bs (sendT Script.world w bs T) := by
+  unfold sendT Net.send
+  split
+  · rename_i h; exact sendAll_facts T h w bs 0 hs
+  · split
+    · rename_i h1 h2; subst h2; exact sendTry_facts w bs hs
+    · rename_i h1 h2
+      have hT : 0 < T := by omega
+      exact sendSome_facts T hT w bs _ _ 0 hs (by show w.clock + T - T ≤ w.clock; omega) (by show w.clock + T - T ≤ w.clock; omega)
 
 end SockModel.PeerFail.Spec
